@@ -336,3 +336,153 @@ def compare_cython_blocked(ctx):
             bad.append({"what": "whole project schedules differently with the compiled extensions blocked",
                         "project": render(ap), "loaded": x.get("obs") or x, "blocked": y.get("obs") or y})
     return {"n": len(aps), "bad": bad[:3]}
+
+
+# ----------------------------------------------------------------------------- encoding for the Coq model
+class NotCore(Exception):
+    pass
+
+
+def encode_core(ap, obs_end):
+    """flat-integer encoding of a core-dialect project for ocaml/scheddriver.ml ('sched ...').
+    Raises NotCore when the project leaves the dialect of Model/Sched.v."""
+    G = ap.get("G", 3600)
+    S = ap["start"]
+    if ap.get("alap") or S % G:
+        raise NotCore("alap / unaligned start")
+    upper = (obs_end - S) // G
+    ridx = res_index(ap)
+    rleaf = [(p, n) for p, n in ridx.items() if "kids" not in n]
+    rnum = {n["id"]: i for i, (p, n) in enumerate(rleaf)}
+    limits = []            # (value, period, only)
+
+    def add_limits(n):
+        ids = []
+        for kind, per in (("dailymax", 86400), ("weeklymax", 604800)):
+            if n.get(kind) is not None:
+                only = -1
+                if n.get("limit_res"):
+                    if len(n["limit_res"]) != 1:
+                        raise NotCore("multi-resource limit filter")
+                    only = rnum[n["limit_res"][0]]
+                limits.append((int((n[kind] / 60.0) / (G / 3600.0)), per, only))
+                ids.append(len(limits) - 1)
+        return ids
+    rlim = {p: add_limits(n) for p, n in ridx.items()}
+    out = [upper, len(rleaf)]
+    if not aligned(ap):
+        raise NotCore("calendar not aligned to the resolution")
+    for p, n in rleaf:
+        if n.get("tz") and False:
+            raise NotCore("tz")
+        work = [1 if working(ap, n, S + s * G) else 0 for s in range(upper + 1)]
+        ls = []
+        for k in range(len(p), 0, -1):
+            ls += rlim[p[:k]]
+        out += [len(work)] + work + [len(ls)] + ls
+    tidx = task_index(ap)
+    order = list(tidx)
+    tnum = {p: i for i, p in enumerate(order)}
+    tlim = {p: add_limits(n) for p, n in tidx.items()}
+    out += [S, G, len(limits)]
+    for v, per, only in limits:
+        out += [v, per, only]
+    edges = all_edges(ap)
+    out.append(len(order))
+    for p in order:
+        n = tidx[p]
+        leaf = "kids" not in n
+        kids = [tnum[p + (k["id"],)] for k in n.get("kids", [])]
+        lvs = [tnum[x] for x in leaves_under(n, p)]
+        prio = 500
+        for k in range(len(p), 0, -1):
+            if tidx[p[:k]].get("prio") is not None:
+                prio = tidx[p[:k]]["prio"]
+                break
+        need, team = 0, []
+        if leaf and n.get("effort") is not None:
+            if n.get("alt") or n.get("sched") or n.get("end") is not None:
+                raise NotCore("alternatives / task-level mode / end")
+            team = [rnum[x] for x in n["alloc"]]
+            eff = max(float(ridx[[q for q in ridx if q[-1] == x][0]].get("eff") or 1.0) for x in n["alloc"])
+            need_f = n["effort"] * 60.0 / (G * eff)
+            if abs(need_f - round(need_f)) > 1e-9 or round(need_f) < 1:
+                raise NotCore("effort is not a whole number of slots")
+            need = int(round(need_f))
+        deps = []
+        for (q, gap, onstart, gaplen) in edges[p]:
+            if gaplen or gap % G:
+                raise NotCore("gap is not a whole number of slots")
+            deps.append((tnum[q], 1 if onstart else 0, gap // G))
+        pin = -1
+        if n.get("start") is not None and leaf:
+            if (n["start"] - S) % G or n["start"] < S:
+                raise NotCore("pinned start not on a slot boundary of the horizon")
+            pin = (n["start"] - S) // G
+        lb = 0
+        for k in range(len(p) - 1, 0, -1):
+            s = tidx[p[:k]].get("start")
+            if s is not None:
+                if (s - S) % G:
+                    raise NotCore("container start not aligned")
+                lb = max(0, (s - S) // G)
+                break
+        tl = []
+        for k in range(len(p), 0, -1):
+            tl += tlim[p[:k]]
+        out += [1 if leaf else 0, len(kids)] + kids + [len(lvs)] + lvs + [prio, need, len(team)] + team
+        out += [len(deps)] + [x for d in deps for x in d] + [pin, lb, len(tl)] + tl
+    return "sched " + " ".join(str(x) for x in out), order, [fid(p) for p, _ in rleaf]
+
+
+def model_results(ap, obs, line_order):
+    """run the extracted model; returns ({task: (sched, start_s, end_s)}, set of (task, res, slot))"""
+    line, order, rnames = line_order
+    out = common.run_driver("scheddriver", [line])[0]
+    if out.startswith("ERROR") or "|" not in out:
+        return None, out
+    left, right = out.split("|")
+    G, S = ap.get("G", 3600), ap["start"]
+    res = {}
+    for p, tok in zip(order, left.split()):
+        if tok == "-":
+            res[fid(p)] = (False, None, None)
+        else:
+            a, b = tok.split(":")
+            res[fid(p)] = (True, S + int(a) * G, S + int(b) * G)
+    bk = set()
+    for tok in right.strip().split(";"):
+        if tok:
+            t, r, s = tok.split(",")
+            bk.add((fid(order[int(t)]), rnames[int(r)], int(s)))
+    return res, bk
+
+
+def compare_model(ap, obs):
+    """disagreements between the extracted Coq model and the implementation on one core project"""
+    sc = obs["scenarios"][0]
+    try:
+        enc = encode_core(ap, obs["end"])
+    except NotCore as ex:
+        return None, str(ex)
+    res, bk = model_results(ap, obs, enc)
+    if res is None:
+        return [{"what": "model driver failed", "detail": bk}], None
+    dis = []
+    for t, st in sc["tasks"].items():
+        m = res.get(t)
+        i = (st["sched"], st["start"] if st["sched"] else None, st["end"] if st["sched"] else None)
+        if m != i:
+            dis.append({"what": "task dates differ", "task": t, "model": m, "impl": i})
+    G = obs["G"]
+    ib = set()
+    for r, slots in sc["ledger"].items():
+        for s, ents in slots.items():
+            for t, x in ents:
+                if x > 1e-3:
+                    ib.add((t, r, int(s)))
+                    if abs(x - G) > 1e-3:
+                        dis.append({"what": "partial slot booked in a core-dialect project", "resource": r, "slot": int(s), "entry": [t, x]})
+    if ib != bk:
+        dis.append({"what": "booked (task, resource, slot) sets differ", "only_model": sorted(bk - ib)[:6], "only_impl": sorted(ib - bk)[:6]})
+    return dis, None
